@@ -238,7 +238,7 @@ func (c *credentials) authorize() (string, error) {
 		c.username = c.h(fmt.Sprintf("%s:%s", c.username, c.realm))
 		sl = append(sl, fmt.Sprintf(`userhash=%s`, c.userhash))
 	}
-	sl = append(sl, fmt.Sprintf(`username="%s"`, c.username))
+	sl = append(sl, fmt.Sprintf(`username="%s"`, escapeQuoted(c.username)))
 	sl = append(sl, fmt.Sprintf(`realm="%s"`, c.realm))
 	sl = append(sl, fmt.Sprintf(`nonce="%s"`, c.nonce))
 	sl = append(sl, fmt.Sprintf(`uri="%s"`, c.digestURI))
@@ -256,6 +256,12 @@ func (c *credentials) authorize() (string, error) {
 	}
 
 	return fmt.Sprintf("Digest %s", strings.Join(sl, ", ")), nil
+}
+
+// escapeQuoted renders s as the content of a quoted-string (RFC 7230 section 3.2.6):
+// backslash and double quote are preceded by a backslash.
+func escapeQuoted(s string) string {
+	return strings.NewReplacer(`\`, `\\`, `"`, `\"`).Replace(s)
 }
 
 func (c *credentials) validateQop() error {
